@@ -295,7 +295,7 @@ func init() {
 			}},
 			{ID: "C09.R2", Doc: "OWN: every store of a spine into a container has origin within the container itself or FRESH; a new container's storage is exclusively FRESH (package-wide)", Run: func(c *Ctx) {
 				n := ownRule(c, "C09.R2")
-				c.R.Floor("C09.R2", n, 14)
+				c.R.Floor("C09.R2", n, 8)
 				c09GoTyped(c)
 			}},
 			{ID: "C09.R3", Doc: "container structs hold exactly {spine, ego}; the package has no mutable package-level state", Run: func(c *Ctx) {
@@ -314,7 +314,7 @@ func init() {
 			{ID: "C08.R2", Doc: "DEEP: container copy() returns a FRESH container; every value stored into it has origin FRESH/SCALAR; one store per element of the receiver's spine", Run: c08R2},
 			{ID: "C08.R3", Doc: "parseVal returns a container operand itself and allocates for everything else", Run: c08R3},
 			{ID: "C08.R4", Doc: "Clone returns exactly the result of copy() of the receiver / its ego", Run: c08R4},
-			{ID: "C08.R5", Doc: "OWN (package-wide): mutators write only spines of their receiver", Run: func(c *Ctx) { c.R.Floor("C08.R5", ownRule(c, "C08.R5"), 14) }},
+			{ID: "C08.R5", Doc: "OWN (package-wide): mutators write only spines of their receiver", Run: func(c *Ctx) { c.R.Floor("C08.R5", ownRule(c, "C08.R5"), 8) }},
 		},
 	})
 }
